@@ -1,6 +1,7 @@
 """C07: subgraph failures are isolated (loader lab + loader model) -- see DESIGN.md."""
 import os
 import re
+import threading
 
 import vlib
 
@@ -61,7 +62,7 @@ def _fold(chk, state, b, totals):
 
 
 def run(chk, extra_corpus=None):
-    n = 350 if chk.tier == "quick" else 100     # thorough: 6 batches of 100 plans with power-set fault sets (~60k runs each)
+    n = 320 if chk.tier == "quick" else 100     # thorough: 6 batches of 100 plans with power-set fault sets (~60k runs each)
     chk.coverage["rule"] = RULE
     chk.assumptions += [
         "Coq 8.16.1 kernel (coqc, full .vo build); vm_compute only in Examples and refutation witnesses",
@@ -101,7 +102,14 @@ def run(chk, extra_corpus=None):
     if b:
         _fold(chk, state, b, totals)
         samples += [c[:600] for c in b[0][:1]]
+    # the chain batch (below) runs beside the main batch
+    nc = 60 if chk.tier == "quick" else 150
+    chain_box = []
+    th = threading.Thread(target=lambda: chain_box.append(_batch(
+        chk, "%s gen -seed %d -n %d -tier %s -mode chain -out {out}" % (exe, chk.seed, nc, chk.tier), model, "chain", timeout=3000)))
+    th.start()
     b = _batch(chk, "%s gen -seed %d -n %d -tier %s -out {out}" % (exe, chk.seed, n, chk.tier), model, "gen", timeout=3000)
+    th.join()
     if b:
         _fold(chk, state, b, totals)
         samples += [c[:600] for c in b[0][:3]]
@@ -122,8 +130,7 @@ def run(chk, extra_corpus=None):
 
     # @requires chains / DAGs and dependent Single fetches (mode chain): a dependant of a SKIPPED fetch that does not depend on
     # the failed fetch itself, mostly with nullable inputs (the representation still renders)
-    nc = 60 if chk.tier == "quick" else 150
-    b = _batch(chk, "%s gen -seed %d -n %d -tier %s -mode chain -out {out}" % (exe, chk.seed, nc, chk.tier), model, "chain", timeout=3000)
+    b = chain_box[0] if chain_box else None
     if b:
         _fold(chk, state, b, totals)
         samples += [c[:600] for c in b[0][:1]]
